@@ -395,6 +395,71 @@ def gen_qimport_case(rng):
     return {"text": text, "ops": ops, "graph": False, "src": "qualified-import"}
 
 
+def gen_subscript_case(rng):
+    """a component class whose equations subscript an array by one of its OWN parameters/constants (x[n], B[n, k]),
+    instantiated under different instance names by several models; flattened from both trees, after copies and edits
+    (the flat digest includes the subscript expressions)"""
+    n = rng.randint(1, 2)
+    two_d = rng.random() < 0.5
+    lines = ["package L", "  model A", "    parameter Integer n = %d;" % n, "    constant Integer k = 1;", "    Real x[2];"]
+    if two_d:
+        lines.append("    Real B[2, 2];")
+    lines += ["    Real y;", "  equation", "    y = x[n]%s;" % (" + B[n, k]" if two_d else ""), "    x[k] = 1.0;", "  end A;",
+              "  model M", "    A a;", "  end M;", "  model N", "    A b;", "  end N;",
+              "  model Two", "    A first;", "    A second(n = 2);", "  end Two;", "end L;",
+              "model Top", "  L.A c;", "  L.M m;", "end Top;"]
+    text = "\n".join(lines) + "\n"
+    users = [["L", "M"], ["L", "N"], ["L", "Two"], ["Top"], ["L", "A"]]
+    ops = []
+    ntrees = 1
+    for _ in range(rng.randint(5, 8)):
+        x = rng.random()
+        if x < 0.2 and ntrees < 3:
+            ops.append(["copy", rng.randrange(ntrees)])
+            ntrees += 1
+        elif x < 0.3:
+            ops.append(["addsym", rng.randrange(ntrees), ["L", "A"], 800 + len(ops)])
+        else:
+            ops.append([rng.choice(["flatten", "flatten", "flatten", "sympy", "xml"]), rng.randrange(ntrees), rng.choice(users)])
+    ops.append(["flatten", rng.randrange(ntrees), ["L", "M"]])
+    ops.append(["flatten", rng.randrange(ntrees), ["L", "N"]])
+    return {"text": text, "ops": ops, "graph": False, "src": "subscripts"}
+
+
+def gen_function_edit_case(rng):
+    """user-defined functions called from models (directly and through a component class, and from another
+    function); the FUNCTION classes are edited in place between flattens of the same tree and of its copies"""
+    chain = rng.random() < 0.5
+    lines = ["package L", "  function f", "    input Real u;", "    output Real y;", "  algorithm", "    y := %d.0 * u;" % rng.randint(2, 9),
+             "  end f;"]
+    if chain:
+        lines += ["  function g", "    input Real u;", "    output Real y;", "  algorithm", "    y := f(u) + 1.0;", "  end g;"]
+    top = "g" if chain else "f"
+    lines += ["  model A", "    Real x;", "    Real z;", "  equation", "    z = %s(x);" % top, "  end A;",
+              "  model M", "    A a;", "  end M;", "  model D", "    Real w;", "  equation", "    w = L.f(2.0);", "  end D;", "end L;"]
+    text = "\n".join(lines) + "\n"
+    users = [["L", "M"], ["L", "A"], ["L", "D"]]
+    funcs = [["L", "f"]] + ([["L", "g"]] if chain else [])
+    ops = []
+    ntrees = 1
+    uid = 900
+    for step in range(rng.randint(6, 9)):
+        x = rng.random()
+        if x < 0.18 and ntrees < 3:
+            ops.append(["copy", rng.randrange(ntrees)])
+            ntrees += 1
+        elif x < 0.45 and any(o[0] in ("flatten", "sympy", "xml") for o in ops):
+            t = rng.randrange(ntrees)
+            uid += 1
+            ops.append([rng.choice(["addsym", "addsym", "addeq"]), t, rng.choice(funcs), uid])
+            ops.append(["flatten", t, rng.choice(users)])
+            if ntrees > 1:
+                ops.append(["flatten", rng.choice([i for i in range(ntrees) if i != t]), rng.choice(users)])
+        else:
+            ops.append([rng.choice(["flatten", "flatten", "flatten", "sympy", "xml"]), rng.randrange(ntrees), rng.choice(users)])
+    return {"text": text, "ops": ops, "graph": False, "src": "function-edits"}
+
+
 def gen_graph_case(rng, nops):
     lib = gen_library(rng, small=True)
     shadows = [Shadow(lib)]
@@ -655,8 +720,8 @@ def run(ctx):
     ctx.notes["source_fingerprint"] = {"ast.py:Class.__deepcopy__+ClassModificationArgument.__deepcopy__": fp}
     sg, sh, why = source_flags(src)
 
-    n_graph = ctx.scaled(70, 1000)
-    n_oracle = ctx.scaled(32, 450)
+    n_graph = ctx.scaled(60, 1000)
+    n_oracle = ctx.scaled(28, 450)
     graph_cases = [gen_graph_case(ctx.rng, ctx.rng.randint(2, 7)) for _ in range(n_graph)]
     oracle_cases = [gen_oracle_case(ctx.rng, ctx.rng.randint(6, ctx.scaled(16, 24))) for _ in range(n_oracle)]
     try:
@@ -664,7 +729,9 @@ def run(ctx):
     except OSError:
         corpus = []
     special = [gen_const_edit_case(ctx.rng) for _ in range(ctx.scaled(6, 60))] + \
-              [gen_qimport_case(ctx.rng) for _ in range(ctx.scaled(5, 40))]
+              [gen_qimport_case(ctx.rng) for _ in range(ctx.scaled(5, 40))] + \
+              [gen_subscript_case(ctx.rng) for _ in range(ctx.scaled(5, 40))] + \
+              [gen_function_edit_case(ctx.rng) for _ in range(ctx.scaled(5, 40))]
     cases = corpus + graph_cases + oracle_cases + special
     # 4 children in parallel (the histories are independent)
     from concurrent.futures import ThreadPoolExecutor
